@@ -400,6 +400,47 @@ fn fill(tier: Tier, acc: &mut Acc) {
         }
     }
 
+    // ---- deep nesting: every node must be found however deep it sits (the traversal has no depth bound)
+    for depth in [65usize, 70, 130] {
+        // left-nested additions, nested parentheses, nested negations, ternary chains, nested blocks
+        let mut e = var("d0");
+        for k in 1..depth {
+            e = bin("Add", "+", 5, 5, 4, e, var(["d1", "d2", "d3"][k % 3]));
+        }
+        acc.add("deep", format!("add:{}", depth), in_func(node("Return", vec![T("return"), C(e), T(";")])));
+        let mut e = bin("Multiply", "*", 4, 4, 3, var("d0"), num("2"));
+        for _ in 0..depth {
+            e = paren(e);
+        }
+        acc.add("deep", format!("paren:{}", depth), in_func(expr_stmt(e)));
+        let mut e = bin("Equal", "==", 11, 11, 10, var("d0"), var("d1"));
+        e = paren(e);
+        for _ in 0..depth {
+            e = nodep("Not", 2, vec![T("!"), C(e)]);
+        }
+        acc.add("deep", format!("not:{}", depth), in_func(expr_stmt(e)));
+        let mut e = var("last");
+        for k in 0..depth {
+            e = nodep("Ternary", 14, vec![C(fit(13, &bin("Less", "<", 10, 10, 9, var("c"), num(&k.to_string())))), T("?"), C(num("1")), T(":"), C(e)]);
+        }
+        acc.add("deep", format!("ternary:{}", depth), in_func(expr_stmt(e)));
+        let mut st = expr_stmt(nodep("PostIncrement", 0, vec![C(var("k")), T("++")]));
+        for k in 0..depth {
+            st = if k % 2 == 0 { block(vec![st]) } else { node("If", vec![T("if"), T("("), C(var("c")), T(")"), C(st)]) };
+        }
+        acc.add("deep", format!("blocks:{}", depth), in_func(st));
+        let mut e = var("arr");
+        for k in 0..depth {
+            e = subscript(e, num(&(k % 3).to_string()));
+        }
+        acc.add("deep", format!("subscript:{}", depth), in_func(expr_stmt(bin("Assign", "=", 14, 13, 14, e, num("1")))));
+        let mut e = var("x");
+        for _ in 0..depth {
+            e = call(var("f"), vec![e]);
+        }
+        acc.add("deep", format!("calls:{}", depth), in_func(expr_stmt(e)));
+    }
+
     if tier == Tier::Thorough {
         // ---- Σ_A(2): chains of two alternatives in every non-expression-owned hole
         let syn = |a: &EAlt| !a.atom || a.name.len() % 3 == 0;
